@@ -82,7 +82,7 @@ use serde_json::{
 };
 use std::collections::BTreeMap;
 
-const RULE: &str = "lib: code lengths {0, 1..17, <300, 16 KiB*k + {-8,-7,-1,0,1,7,8} for k=1..6, uniform up to 100 KiB} x slot sets of 0..32 slots (random / pooled keys, unsorted, duplicate keys with equal or different values) x random salts: Contract::root_from_code, Contract::root, initial_state_root, default_state_root, Contract::id, Input::predicate_owner, is_predicate_owner_valid against the specification formulas over refmodel::rfc6962 / refmodel::smt / sha2. vm: deploy (Create with the reference ContractCreated output through into_checked_basic + Transactor::deploy over MemoryStorage, storage inspected; a flipped id / state root must be rejected by checking; CROO on the deployed contract), croo (contract stored under an arbitrary id, script CROO + LOGD), predicate (coin / message-coin / message-data predicate `ret $one` + filler of the chosen length: reference owner accepted by checking and check_predicates, flipped owner rejected). class = (len mod 8, len relative to k*16 KiB, slot count bucket, path)";
+const RULE: &str = "lib: code lengths {0, 1..17, <300, 16 KiB*k + {-8,-7,-1,0,1,7,8} for k=1..6, uniform up to 100 KiB} x slot sets of 0..32 slots (random / pooled keys, unsorted, duplicate keys with equal or different values) x random salts: Contract::root_from_code, Contract::root, initial_state_root, default_state_root, Contract::id, Input::predicate_owner, is_predicate_owner_valid against the specification formulas over refmodel::rfc6962 / refmodel::smt / sha2. vm: deploy (Create with the reference ContractCreated output through into_checked_basic + Transactor::deploy over MemoryStorage, storage inspected; a flipped id / state root must be rejected by checking; CROO on the deployed contract; the same Create object pre-computed, then code / salt / slots replaced in place and checked again: the earlier identifiers must be rejected, the reference identifiers of the present contents accepted and deployed under), croo (contract stored under an arbitrary id, script CROO + LOGD), predicate (coin / message-coin / message-data predicate `ret $one` + filler of the chosen length: reference owner accepted by checking and check_predicates, flipped owner rejected). class = (len mod 8, len relative to k*16 KiB, slot count bucket, path)";
 
 const LEAF: usize = 16 * 1024;
 const SEED: &[u8] = b"FUEL"; // 0x4655454C
@@ -551,6 +551,132 @@ fn deploy_case(c: &Case, rep: &mut Report) {
     croo_on(&mut t, &params, &cid, c, "deployed", rep);
 }
 
+/// The same Create transaction object checked again after its contents were changed in
+/// place: whatever `precompute` cached the first time (contract root, state root, contract
+/// id) must not survive, the identifiers are those of the present contents.
+fn recheck_case(c: &Case, rep: &mut Report) {
+    use fuel_tx::{
+        Cacheable,
+        field::{
+            Outputs,
+            Salt as SaltField,
+            StorageSlots,
+            Witnesses,
+        },
+    };
+    let params = vm_params();
+    let h = BlockHeight::from(1u32);
+    let root_a = ref_root(&c.code);
+    let state_a = ref_state_root(&c.slots, true);
+    let id_a = ref_id(&c.salt, &root_a, &state_a);
+    // the changed contents: code always, salt and slots depending on the case
+    let mut code_b = c.code.clone();
+    if code_b.is_empty() {
+        code_b.push(c.flip as u8 | 1);
+    } else {
+        let i = c.flip as usize % code_b.len();
+        code_b[i] ^= 0x40;
+        if c.flip % 3 == 0 {
+            code_b.extend_from_slice(&[1, 2, 3, 4, 5, 6, 7, 8]);
+        }
+    }
+    let mut salt_b = c.salt;
+    if c.flip % 2 == 1 {
+        salt_b[(c.flip as usize / 8) % 32] ^= 1 << (c.flip % 8);
+    }
+    let mut slots_b = c.slots.clone();
+    let what = if c.flip % 5 == 0 && !slots_b.is_empty() {
+        slots_b[0].1[31] ^= 1;
+        "code+slots"
+    } else if c.flip % 2 == 1 {
+        "code+salt"
+    } else {
+        "code"
+    };
+    let root_b = ref_root(&code_b);
+    let state_b = ref_state_root(&slots_b, true);
+    let id_b = ref_id(&salt_b, &root_b, &state_b);
+    let mut tx: fuel_tx::Create = Transaction::create(
+        0,
+        Policies::new().with_max_fee(0),
+        Salt::new(c.salt),
+        to_slots(&c.slots),
+        vec![fee_coin(3)],
+        vec![Output::contract_created(ContractId::new(id_a), Bytes32::new(state_a))],
+        vec![Witness::from(c.code.clone()), Witness::from(vec![0u8; 64])],
+    );
+    if tx.precompute(&params.chain_id()).is_err() {
+        rep.count("harness_setup_failed");
+        return;
+    }
+    rep.eval();
+    rep.class(format!("recheck|{what}|{}", len_shape(code_b.len())));
+    tx.witnesses_mut()[0] = Witness::from(code_b.clone());
+    *tx.salt_mut() = Salt::new(salt_b);
+    *AsMut::<Vec<StorageSlot>>::as_mut(&mut tx.storage_slots_mut()) = to_slots(&slots_b);
+    // (1) the output still names the identifiers of the earlier contents: rejected
+    match guarded(|| tx.clone().into_checked_basic(h, &params).map(|_| ()).map_err(|e| format!("{e:?}"))) {
+        Err(p) => rep.violation(format!("C15|panic|into_checked_basic(Create)|{}", p.site()), p.text.clone(), || c.to_json()),
+        Ok(Ok(())) => rep.violation(
+            format!("C15|recheck|Create changed in place ({what}) is accepted with the identifiers of its earlier contents"),
+            format!("after precompute the {what} were replaced; output (id {}, state root {}) of the earlier contents accepted; reference for the present contents id {} state root {}", hx(id_a), hx(state_a), hx(id_b), hx(state_b)),
+            || c.to_json(),
+        ),
+        Ok(Err(e)) if e.contains("ContractCreated") => rep.count("recheck_stale_output_rejected"),
+        Ok(Err(e)) => {
+            rep.count("harness_setup_failed");
+            rep.note(format!("re-checked Create rejected for another reason: {e}"));
+            return;
+        }
+    }
+    // (2) the output names the reference identifiers of the present contents: accepted and
+    // deployed under them
+    tx.outputs_mut()[0] = Output::contract_created(ContractId::new(id_b), Bytes32::new(state_b));
+    let checked = match guarded(|| tx.clone().into_checked_basic(h, &params).map_err(|e| format!("{e:?}"))) {
+        Err(p) => {
+            rep.violation(format!("C15|panic|into_checked_basic(Create)|{}", p.site()), p.text.clone(), || c.to_json());
+            return;
+        }
+        Ok(Err(e)) => {
+            if e.contains("ContractCreated") {
+                rep.violation(
+                    format!("C15|recheck|Create changed in place ({what}) is rejected with the reference identifiers of its present contents"),
+                    format!("reference id {} state root {}: {e}", hx(id_b), hx(state_b)),
+                    || c.to_json(),
+                );
+            } else {
+                rep.count("harness_setup_failed");
+            }
+            return;
+        }
+        Ok(Ok(x)) => x,
+    };
+    let mut t = new_transactor(&params);
+    match guarded(|| t.deploy(checked).map(|_| ()).map_err(|e| format!("{e:?}"))) {
+        Err(p) => {
+            rep.violation(format!("C15|panic|Transactor::deploy|{}", p.site()), p.text.clone(), || c.to_json());
+            return;
+        }
+        Ok(Err(e)) => {
+            rep.violation("C15|deploy|Transactor::deploy failed on a checked Create", format!("re-checked Create, code {} bytes: {e}", code_b.len()), || c.to_json());
+            return;
+        }
+        Ok(Ok(())) => {}
+    }
+    let st: &MemoryStorage = t.as_ref();
+    let stored: Option<Vec<u8>> = st.storage_contract(&ContractId::new(id_b)).expect("infallible").map(|x| x.as_ref().as_ref().to_vec());
+    let n_state = st.all_contract_state().filter(|(k, _)| *k.contract_id() == ContractId::new(id_b)).count();
+    if stored.as_deref() != Some(&code_b[..]) || n_state != slots_distinct(&slots_b) {
+        rep.violation(
+            format!("C15|recheck|Create changed in place ({what}) is not deployed under the reference id of its present contents"),
+            format!("reference id {}: code stored there: {}, state entries there: {n_state}", hx(id_b), stored.map(|c| c.len().to_string()).unwrap_or_else(|| "none".into())),
+            || c.to_json(),
+        );
+    } else {
+        rep.count("recheck_deploy_ok");
+    }
+}
+
 fn croo_case(c: &Case, rep: &mut Report) {
     let params = vm_params();
     let mut t = new_transactor(&params);
@@ -640,7 +766,10 @@ fn predicate_case(c: &Case, rep: &mut Report) {
 fn run_case(c: &Case, rep: &mut Report) {
     match c.path.as_str() {
         "lib" => lib_case(c, rep),
-        "deploy" => deploy_case(c, rep),
+        "deploy" => {
+            deploy_case(c, rep);
+            recheck_case(c, rep);
+        }
         "croo" => croo_case(c, rep),
         "predicate" => predicate_case(c, rep),
         other => rep.inconclusive = Some(format!("C15: unknown path {other}")),
